@@ -220,6 +220,34 @@ def run(prog, check):
     if str_try is not None:
         for h in str_try.handlers:
             tolerated += handler_types(h)
+    from ..dataflow import truth_search as _ts
+
+    def handler_outcome(h, ty):
+        """('raises', [names]) when every feasible path from the handler ends in a raise inside its body (constants such
+        as an inlined `is_strict=True` are honoured), ('continues', []) when normal flow can resume"""
+        hn = [x for x in g.nodes if x.kind == 'except' and x.ast is h]
+        if not hn:
+            return 'continues', []
+        body_ids = set(id(x) for st in h.body for x in ast.walk(st))
+        hits, seen_ = _ts(g, hn, [])
+        names, cont = [], False
+        for k in seen_:
+            nd = g.nodes[k[0]]
+            if nd is hn[0]:
+                continue
+            inside = nd.stmt is not None and id(nd.stmt) in body_ids or (nd.ast is not None and id(nd.ast) in body_ids)
+            if not inside:
+                if nd.kind not in ('raise_exit',):
+                    # left the handler body
+                    pred = seen_[k]
+                    pn = g.nodes[pred[0]] if pred else None
+                    if pn is not None and pn.kind == 'stmt' and isinstance(pn.ast, ast.Raise):
+                        continue
+                    cont = True
+                continue
+            if nd.kind == 'stmt' and isinstance(nd.ast, ast.Raise):
+                names.append(raised_name(nd.ast) or ty)
+        return ('continues' if cont or not names else 'raises'), names
     for n in sw.post_nodes:
         if n.kind != 'stmt':
             continue
@@ -232,17 +260,18 @@ def run(prog, check):
                     if tr is not None:
                         for h in tr.handlers:
                             if any(t == '*' or exc_is_a(ty, t) for t in handler_types(h)):
-                                rs = [x for x in h.body if isinstance(x, ast.Raise)]
-                                if not rs:
+                                kind_, names_ = handler_outcome(h, ty)
+                                if kind_ == 'continues':
                                     ok, why = False, '%s is swallowed by `except %s`' % (ty, '/'.join(handler_types(h)))
+                                break
                 else:
                     ok, why = False, '%s from a decorative equation escapes unconverted' % ty
                     if tr is not None:
                         for h in tr.handlers:
                             if any(t == '*' or exc_is_a(ty, t) for t in handler_types(h)):
-                                rs = [x for x in h.body if isinstance(x, ast.Raise)]
-                                if rs and raised_name(rs[-1]) and exc_is_a(raised_name(rs[-1]), 'ValueError'):
-                                    ok, why = True, '%s converted to %s' % (ty, raised_name(rs[-1]))
+                                kind_, names_ = handler_outcome(h, ty)
+                                if kind_ == 'raises' and all(exc_is_a(nm_, 'ValueError') for nm_ in names_):
+                                    ok, why = True, '%s converted to %s' % (ty, sorted(set(names_)))
                                 else:
                                     ok, why = False, '%s handled without raising a ValueError' % ty
                                 break
@@ -603,17 +632,24 @@ def check_searches(prog, check, rule):
                 check.saw(fn_raw)
                 hdr = [h for h in g.nodes if h.kind == 'for' and h.stmt is loop][0]
 
-                def step(extra, node, lab, env, nxt, _loop=loop, _hdr=hdr, _mk=match_kind):
+                # the selecting statements that sit under a match criterion
+                sel_ids = set()
+                for x in sel:
+                    nd_ = g.node_of(x)
+                    if any(match_kind(e, v) for test, outcome in g.conditions_at(nd_) if id(test) in inside
+                           for _, v, e in atomic_facts(test, outcome)):
+                        sel_ids.add(nd_.id)
+
+                def step(extra, node, lab, env, nxt, _loop=loop, _hdr=hdr, _sel=sel_ids):
+                    # M = number of candidates selected so far (a second match that raises before selecting never counts)
                     M, seen_iter, entered = extra
                     if node is _hdr:
                         entered = 1
                         if lab is True:
                             seen_iter = 0
-                    if node.kind == 'test' and lab in (True, False) and _loop in node.loops and not seen_iter:
-                        if any(_mk(e, v) for _, v, e in atomic_facts(node.ast, lab)):
-                            # all criteria of the iteration must hold: judged on the test that carries the criterion
-                            M = min(2, M + 1)
-                            seen_iter = 1
+                    if node.id in _sel and lab not in ('exc', 'raise') and not seen_iter:
+                        M = min(2, M + 1)
+                        seen_iter = 1
                     return (M, seen_iter, entered)
                 hits, seen = truth_search(g, [g.entry], [g.exit], extra0=(0, 0, 0), step=step)
                 finals = [k for k in seen if k[0] == g.exit.id and k[2][2] == 1]
